@@ -15,6 +15,16 @@ CLAIMED = {
    note=TRUST + "Config.v is a hand-written model of config.py tied by running histories through model and real API in fresh interpreters.",
    technique="Coq proof by induction over API histories (invariant), generated option table, differential correspondence",
    ref="5/C10"),
+ "C13": dict(
+   text="Theorems C13_unpack_tuple/_list: for every flat target list with at most one starred name, every source length Python "
+        "accepts and every value type, the accessors the converter emits (t[i], list(t[s:s-n+1 or None]), t[i-n] over tuple(value)) "
+        "select exactly what Python's unpacking binds (reference index/slice semantics in Coq); C13_two_stars_rejected; "
+        "C13_op_table: the operator table regenerated from the code equals the data model's in-place method table; "
+        "C13_aug_name_rebinds: both branches of the emitted conditional rebind the name. Nested patterns, other target kinds and "
+        "placements are decided by AST correspondence of the whole-converter model plus differential execution (support).",
+   note=TRUST + "Unpack.v reference semantics of indexing/slicing/unpacking is hand-written from the language reference and validated against CPython by differential execution.",
+   technique="Coq proof (induction over the target list, lia arithmetic on negative indices/slices) over the converter model + generated operator table + AST correspondence + differential execution",
+   ref="5/C13"),
 }
 PENDING_REASON = "not yet built in this round: model/theorem under construction (see DESIGN.md section 8 build order); not claimed until its minimum is proved and tied"
 ALL = [f"C{i:02d}" for i in range(1, 18)]
